@@ -66,19 +66,20 @@ def obs_hd(dbk, hk):
             'kdb': list(dbk.private or b''), 'Pdb': list(dbk.public or b''), 'addr': codes(dbk.address or '')}
 
 
-def table_of(name, db_uri):
+def table_of(name, db_uri, material=True):
     """Complete key table of a wallet (read through a freshly opened Wallet object): rows for the trace record,
-    observations for the key records."""
+    observations for the key records (material=False: rows only - the script keys of a multisig wallet)."""
     from bitcoinlib.wallets import Wallet
     w = Wallet(name, db_uri=db_uri)
     rows, obs = [], {}
     for dbk in w.keys():
-        hk = w.key(dbk.id).key()
-        o = obs_hd(dbk, hk)
-        obs[dbk.id] = o
+        if material:
+            hk = w.key(dbk.id).key()
+            obs[dbk.id] = obs_hd(dbk, hk)
         rows.append({'id': int(dbk.id), 'parent': _int(dbk.parent_id, 0), 'depth': _int(dbk.depth), 'path': codes(dbk.path),
                      'net': dbk.network_name, 'wt': dbk.witness_type, 'acct': _int(dbk.account_id), 'ch': _int(dbk.change),
-                     'idx': _int(dbk.address_index), 'addr': codes(dbk.address or ''), 'P': o['Pdb']})
+                     'idx': _int(dbk.address_index), 'addr': codes(dbk.address or ''), 'P': list(dbk.public or b''),
+                     'cos': _int(dbk.cosigner_id, 0), 'kt': dbk.key_type or ''})
     try:
         w.session.close()
     except Exception:
@@ -98,7 +99,7 @@ def key_records(rows, obs, root, rng=None, nleaf=None):
     for r in rows:
         o = obs[r['id']]
         rec = {'k': 'key', 'root': 'child', 'seed': [], 'words': [], 'pass': [], 'parent': o, 'child': o, 'tok': [],
-               'net': r['net'], 'wt': r['wt'], 'id': r['id'], 'path': r['path'], 'exported': False}
+               'net': r['net'], 'wt': r['wt'], 'id': r['id'], 'path': r['path'], 'exported': False, 'noaddr': False}
         if r['parent'] == 0 or r['parent'] not in obs:
             rec.update(root)
         else:
@@ -115,6 +116,7 @@ class Driver:
         self.w, self.name, self.db_uri, self.cfg, self.rng = w, name, db_uri, cfg, rng
         self.events, self.desc = [], []
         self.fake = 0
+        self.gentle = False         # only requests for one key at a time, position given by arguments
         self.exported = False       # public_master() was called on the current wallet object
         self.ever_exported = False
 
@@ -216,6 +218,8 @@ class Driver:
         return True, [out_of(x) for x in r], text
 
     def step(self, a, variant):
+        if self.gentle and a['op'] in ('new_keys', 'get_keys', 'key_for_path'):
+            a = dict(a, n=1, form='args')
         ok, out, text = self.call(a, variant)
         self.record(a, ok, out, text)
 
@@ -280,13 +284,52 @@ class Driver:
         # requests the wallet cannot serve: a watch-only wallet outside its account, a network sharing a coin type
         if watch:
             x = rng.random()
+            if x < 0.2:
+                return req(rng.choice(['new_keys', 'get_keys', 'key_for_path']), cfg['net'], cfg['wt'], cfg['acct'] + rng.choice([1, 2]),
+                           rng.choice([0, 1]), 1, rng.choice([0, 0, 1]))
             if x < 0.4:
                 return req('new_account', cfg['net'], cfg['wt'], -1)
             if x < 0.7:
                 return req('new_keys', cfg['net'], rng.choice([t for t in WTS if t != cfg['wt']]), cfg['acct'])
             return req('new_keys', rng.choice([n for n, _ in NETS if n != cfg['net']]), cfg['wt'], cfg['acct'])
+        clash = [n for n, _ in NETS if n not in {a[0] for a in accts} and COIN[n] in {COIN[a[0]] for a in accts}]
+        if clash and rng.random() < 0.3:
+            net = rng.choice(clash)
+            wt = rng.choice(dict(NETS)[net])
+            return req(rng.choice(['key_for_path', 'new_keys', 'new_account']), net, wt, rng.choice([0, 0, 1]), rng.choice([0, 1]), 1, rng.choice([0, 1, 3]))
         net, wt, acct, ch = some_chain()
         return req('new_keys', net, wt, acct, ch, 1)
+
+
+def _pick_ms(self):
+    """A request to a multisig wallet (one network, one witness type, one account)."""
+    rng, cfg = self.rng, self.cfg
+    leafs = self.chains_known()
+    r = rng.random()
+
+    def req(op, ch=0, n=1, idx=0, net=None, wt=None):
+        return {'op': op, 'net': net or cfg['net'], 'wt': wt or cfg['wt'], 'acct': 0, 'ch': ch, 'n': n, 'idx': idx,
+                'form': rng.choice(['path', 'args']) if op == 'key_for_path' else 'args'}
+    ch = rng.choice([0, 0, 1])
+    ix = [k[4] for k in leafs if k[3] == ch]
+    t = max(ix) if ix else -1
+    if r < 0.3:
+        return req('new_keys', ch, rng.choice([1, 1, 2, 3]))
+    if r < 0.5:
+        return req('get_keys', ch, rng.choice([1, 1, 2, 4]))
+    if r < 0.68:
+        return req('key_for_path', ch, rng.choice([1, 1, 2]), rng.choice([0, t + 1, t + 1, t + 2, rng.randrange(0, t + 2)]))
+    if r < 0.8 and leafs:
+        k = rng.choice(leafs)
+        return req('mark_used', k[3], 1, k[4])
+    if r < 0.92:
+        return req('reopen')
+    if r < 0.96:
+        return req('new_keys', ch, 1, 0, None, rng.choice([t_ for t_ in WTS if t_ != cfg['wt']]))
+    return req('new_keys', ch, 1, 0, rng.choice([n for n, _ in NETS if n != cfg['net']]))
+
+
+Driver.pick_ms = _pick_ms
 
 
 def _mk_wallet(kind, name, db_uri, net, wt, acct, material):
@@ -326,6 +369,10 @@ def derive_all(w2, leafs):
 def derive_events(drv, tops, rng):
     """The same through a driver: recorded requests key_for_path(chain, 0 .. top)."""
     for (net, wt, acct, ch), t in tops:
+        if drv.gentle:
+            for i in range(t + 1):
+                drv.step({'op': 'key_for_path', 'net': net, 'wt': wt, 'acct': acct, 'ch': ch, 'n': 1, 'idx': i, 'form': 'args'}, rng.randrange(0, 420))
+            continue
         drv.step({'op': 'key_for_path', 'net': net, 'wt': wt, 'acct': acct, 'ch': ch, 'n': t + 1, 'idx': 0, 'form': 'args'}, rng.randrange(0, 420))
 
 
@@ -382,6 +429,7 @@ def _family(job, d):
         return res
     cfg = {'net': net, 'wt': wt, 'acct': acct, 'ms': False, 'cos': 0, 'watch': False}
     drv = Driver(w, name, uri(name), cfg, rng)
+    drv.gentle = bool(job.get('gentle'))
     for i in range(nops):
         drv.step(drv.pick(False), rng.randrange(0, 420))
     w = drv.w
@@ -403,6 +451,7 @@ def _family(job, d):
         w3name = name + 'p'
         cfg3 = {'net': an, 'wt': awt, 'acct': _int(w3.main_key.account_id), 'ms': False, 'cos': 0, 'watch': True}
         drv3 = Driver(w3, name + 'p', uri(name + 'p'), cfg3, rng)
+        drv3.gentle = bool(job.get('gentle'))
         for i in range(max(3, nops // 2)):
             drv3.step(drv3.pick(True), rng.randrange(0, 420))
         # the full wallet derives every position the watch-only wallet created on its own, and the other way round:
@@ -422,7 +471,7 @@ def _family(job, d):
     rows, obs = table_of(name, uri(name))
     if w3name:
         rows3, obs3 = table_of(w3name, uri(w3name))
-        wtrace = {'k': 'trace', 'cfg': cfg3, 'events': drv3.events, 'keys': rows3, 'restored': []}
+        wtrace = {'k': 'trace', 'cfg': cfg3, 'events': drv3.events, 'keys': rows3, 'restored': [], 'cotrees': []}
         res['keys'] += [dict(x, wallet='watch-only', exported=drv3.ever_exported) for x in
                         key_records(rows3, obs3, {'root': 'pub', 'parent': obs[pmid]}, rng, job.get('nleaf'))]
     # (b) restored from the same material in another spelling, every chain derived in bulk
@@ -438,7 +487,7 @@ def _family(job, d):
         restored.append({'kind': k2, 'net': net, 'wt': wt, 'acct': acct, 'keys': restored_rows(w2)})
     except Exception as e:
         problems.append('restoring from %s raised %r' % (k2, e))
-    res['traces'].append({'k': 'trace', 'cfg': cfg, 'events': drv.events, 'keys': rows, 'restored': restored})
+    res['traces'].append({'k': 'trace', 'cfg': cfg, 'events': drv.events, 'keys': rows, 'restored': restored, 'cotrees': []})
     if wtrace:
         res['traces'].append(wtrace)
     res['keys'] += [dict(x, wallet='full', exported=drv.ever_exported) for x in key_records(rows, obs, root, rng, job.get('nleaf'))]
@@ -453,8 +502,16 @@ def jobs_for(n, base, nleaf=None):
     combos = [(net, wt) for net, wts in NETS for wt in wts]
     for i in range(n):
         net, wt = combos[i % len(combos)]
-        jobs.append({'seed': base + i, 'net': net, 'wt': wt, 'nops': 6 + (i * 7) % 9, 'nleaf': nleaf})
+        # every other wallet on a network whose extended-key versions do not tell the witness types apart asks for one key
+        # at a time (so that its history is not cut short by the known deviation of bulk creation)
+        gentle = net.startswith('litecoin') and (i // len(combos)) % 2 == 0
+        jobs.append({'seed': base + i, 'net': net, 'wt': wt, 'nops': 6 + (i * 7) % 9, 'nleaf': nleaf, 'gentle': gentle})
     return jobs
+
+
+def _dispatch(x):
+    from harness import c09_ms
+    return family(x[1]) if x[0] == 's' else c09_ms.family(x[1])
 
 
 def describe(fam, which, upto=None):
@@ -480,10 +537,12 @@ def run(replay=None):
                       'multisig key paths (BIP45/48) are stated in the specification and model; cosigner wallets are driven by C10']
     from concurrent.futures import ThreadPoolExecutor
     acts = ['NewKeys', 'GetKeys', 'KeyForPath', 'NewAccount', 'MarkUsed']
-    ex = ThreadPoolExecutor(2)
+    ex = ThreadPoolExecutor(3)
     mc1 = ex.submit(common.model_check, 'MC_WalletKeys', 'MC_WalletKeys_thorough.cfg' if thorough else 'MC_WalletKeys.cfg',
                     workers=4, expect_actions=acts)
     mc2 = ex.submit(common.model_check, 'MC_WalletKeys', 'MC_WalletKeys_watch_thorough.cfg' if thorough else 'MC_WalletKeys_watch.cfg',
+                    workers=2, expect_actions=acts)
+    mc3 = ex.submit(common.model_check, 'MC_WalletKeys', 'MC_WalletKeys_ms_thorough.cfg' if thorough else 'MC_WalletKeys_ms.cfg',
                     workers=2, expect_actions=acts)
     if replay:
         jobs = [replay['case']['job']]
@@ -496,7 +555,19 @@ def run(replay=None):
         if os.environ.get('VERIF_DEBUG'):
             print('DEBUG time %-10s %.1fs' % (what, _t.time() - T[0]))
         T[0] = _t.time()
-    fams = common.pmap(family, jobs, procs=10)
+    from harness import c09_ms
+    if replay:
+        msjobs = []
+        if jobs[0].get('ms'):
+            msjobs, jobs = jobs, []
+    else:
+        combos = [(n, t) for n, ts in NETS for t in ts]
+        nms = 60 if thorough else 12
+        base = common.seed() % 1000000
+        msjobs = [{'seed': base + 5000 + i, 'net': combos[(i * 5 + base) % len(combos)][0], 'wt': combos[(i * 5 + base) % len(combos)][1],
+                   'nops': 5 + i % 6, 'nleaf': None if thorough else 5, 'ms': True, 'gentle': i % 2 == 0} for i in range(nms)]
+    res_all = common.pmap(_dispatch, [('s', j) for j in jobs] + [('m', j) for j in msjobs], procs=10)
+    fams = res_all
     lap('drive')
     trecs, tinfo, krecs, kinfo = [], [], [], []
     for fam in fams:
@@ -508,20 +579,20 @@ def run(replay=None):
         for k in fam['keys']:
             krecs.append(k)
             kinfo.append(fam)
-    tver = common.tlc_eval('WalletKeysEval', trecs, procs=8, timeout=900)
+    tver = common.tlc_eval('WalletKeysEval', trecs, procs=8 if thorough else 3, timeout=900)
     lap('traces')
     orc = c09_oracle.Oracle9()
-    kver = orc.judge([{x: r[x] for x in ('k', 'root', 'seed', 'words', 'pass', 'parent', 'child', 'tok', 'net', 'wt', 'exported')} for r in krecs])
+    kver = orc.judge(procs=12 if thorough else 5, recs=[{x: r[x] for x in ('k', 'root', 'seed', 'words', 'pass', 'parent', 'child', 'tok', 'net', 'wt', 'exported', 'noaddr')} for r in krecs])
     lap('keys')
     for t, fam, v in zip(trecs, tinfo, tver):
         ck.traces += 1
         case = {'job': fam['job']}
-        kindw = 'watch-only' if t['cfg']['watch'] else 'full'
+        kindw = 'multisig' if t['cfg']['ms'] else ('watch-only' if t['cfg']['watch'] else 'full')
         for e in t['events']:
             own = (e['a']['net'], e['a']['wt'], e['a']['acct']) == (t['cfg']['net'], t['cfg']['wt'], t['cfg']['acct'])
             ck.case((kindw, t['cfg']['net'], t['cfg']['wt'], e['a']['op'], min(e['a']['n'], 2), own, e['ok']))
         if v['v'] != 'ok':
-            which = 'watch' if t['cfg']['watch'] else 'full'
+            which = 'watch' if t['cfg']['watch'] and not t['cfg']['ms'] else 'full'
             at = v['at']
             text = 'clause %s; %s wallet %s/%s account %d (seed %d, from %s), at %s: %s | expected %s | history: %s' % (
                 v['v'], kindw, t['cfg']['net'], t['cfg']['wt'], t['cfg']['acct'], fam['job']['seed'], fam['kind'], at,
@@ -539,12 +610,20 @@ def run(replay=None):
                 [bytes(x).hex() for x in v['exp']][:3])
             for key in (v['devs'] or [None]):
                 ck.violation(key, text, {'job': fam['job']})
+    # a restore / export that raised is a finding only for a wallet whose history conforms (after a deviation the wallet's
+    # tables are what the deviation left behind)
+    conform = {}
+    for t, fam, v in zip(trecs, tinfo, tver):
+        conform[fam['job']['seed']] = conform.get(fam['job']['seed'], True) and v['v'] == 'ok'
     for fam in fams:
+        if not conform.get(fam['job']['seed'], True):
+            continue
         for p in fam.get('problems', []):
             ck.violation(None, 'clause restore-raised; wallet %s/%s (seed %d, from %s): %s | history: %s' % (
                 fam['job']['net'], fam['job']['wt'], fam['job']['seed'], fam['kind'], p, describe(fam, 'full')), {'job': fam['job']})
     ck.model(mc1.result())
     ck.model(mc2.result())
+    ck.model(mc3.result())
     ck.notes['events'] = sum(len(t['events']) for t in trecs)
     ck.notes['keys_judged'] = len(krecs)
     ck.notes['restored_wallets'] = sum(len(t['restored']) for t in trecs)
